@@ -321,7 +321,9 @@ func startHttpServer(c *config.Config, httpServer **http.Server,
 		}
 		mux.Handle("/metrics", middlewareHandler)
 
-		statusHandler = middlewarestd.Handler("status", metricsMdlw, http.HandlerFunc(h.StatusPageHandler)).ServeHTTP
+		// Wrap the (possibly authenticated) statusHandler, not the raw
+		// h.StatusPageHandler, otherwise /status skips authentication.
+		statusHandler = middlewarestd.Handler("status", metricsMdlw, http.HandlerFunc(statusHandler)).ServeHTTP
 
 		ch := cacheHandler // Avoid an infinite loop in the closure below.
 		cacheHandler = func(w http.ResponseWriter, r *http.Request) {
